@@ -1228,7 +1228,19 @@ func blkRunFlush(job *blkJob, sc *blkSched, res *blkResult) blkRun {
 		if w.F != nil && w.F.gate != nil {
 			w.F.gate.releaseGate()
 		}
-		w.pair.destroy()
+		alive := false
+		if w.F != nil && !w.F.finished() {
+			// never unmap the queue under a Flush that is still running: let it go through the close arm, else leak the pair
+			w.as.safeCloseNotify()
+			select {
+			case <-w.F.done:
+			case <-time.After(3 * time.Second):
+				alive = true
+			}
+		}
+		if !alive {
+			w.pair.destroy()
+		}
 		if w.viol != nil {
 			res.Violations = append(res.Violations, *w.viol)
 		}
